@@ -594,6 +594,28 @@ def group_blocks(rng, graph, kmax):
     return list(blocks.values())
 
 
+def _hier_cut(atoms, edges, labels, parts, desc):
+    """one level of a hierarchy as a cut record: atoms [[id, payload]], bonds [u, v, order, label, dollar] (label '' for
+    a bond inside a part; for a directional pair the first atom carries '>'), parts [[name, ids in text order]],
+    dord [[id, descriptor texts in written order]]; labels {frozenset(a, b): (label, a, descriptor of a)}"""
+    bonds = []
+    for a, b, o in edges:
+        lb = labels.get(frozenset((a, b)))
+        if lb is None:
+            bonds.append([a, b, o, '', True])
+            continue
+        lab, a0, da = lb
+        b0 = b if a0 == a else a
+        if da[0] == '$':
+            bonds.append([a0, b0, o, lab, True])
+        elif da[0] == '>':
+            bonds.append([a0, b0, o, lab, False])
+        else:
+            bonds.append([b0, a0, o, lab, False])
+    return {'atoms': atoms, 'bonds': bonds, 'parts': parts,
+            'dord': [[a, [n + str(o) for n, o in desc[a]]] for a in desc]}
+
+
 def layered_case(rng, nmax=9, n_intermediate=None, coarse_last=False, squash=False, reuse_names=False):
     """One C06 input.  Levels: atoms < parts F (level 0 blocks) < groups (level 1) < ... ; returns the
     layered string (base + intermediate coarse fragment levels + last level) and the flat two-level string."""
@@ -617,6 +639,7 @@ def layered_case(rng, nmax=9, n_intermediate=None, coarse_last=False, squash=Fal
     label_iter = iter(rng.sample(LABELS, len(LABELS)) + ['L%d' % i for i in range(200)])
     # atom-level descriptors (as in cut_case)
     desc = {}
+    cut_lab = {}
     for (a, b) in cuts:
         lab = next(label_iter)
         o = m.edges[a, b]['order']
@@ -627,11 +650,19 @@ def layered_case(rng, nmax=9, n_intermediate=None, coarse_last=False, squash=Fal
             da, db = ('>' + lab, '<' + lab) if rng.random() < 0.5 else ('<' + lab, '>' + lab)
         desc.setdefault(a, []).append((da, oo))
         desc.setdefault(b, []).append((db, oo))
+        cut_lab[frozenset((a, b))] = (lab, a, da)
     part_names = {i: 'F%d' % i for i in range(len(parts))}
     last_defs = []
+    part_orders = []
     for i, p in enumerate(parts):
-        t, _ = render_fragment(rng, m, p, desc, ring_style='low', desc_pos=rng.choice(['after', 'before']))
+        t, ol = render_fragment(rng, m, p, desc, ring_style='low', desc_pos=rng.choice(['after', 'before']))
         last_defs.append('#%s=%s' % (part_names[i], t))
+        part_orders.append(list(ol))
+    # the hierarchy as cut records (theories/Compose/CutModel.v, Levels.v), bottom first; see _hier_cut
+    hier = [_hier_cut([[a, {'element': m.nodes[a]['element'], 'charge': m.nodes[a]['charge'], 'aromatic': bool(m.nodes[a]['aromatic'])}]
+                       for a in m],
+                      [(a, b, m.edges[a, b]['order']) for a, b in m.edges], cut_lab,
+                      [[part_names[i], part_orders[i]] for i in range(len(parts))], desc)]
     # intermediate levels: graphs[j] over blocks of level j; names[j]
     graphs = [g0]
     names = [dict(part_names)]
@@ -644,6 +675,7 @@ def layered_case(rng, nmax=9, n_intermediate=None, coarse_last=False, squash=Fal
         gj = nx.Graph()
         gj.add_nodes_from(range(len(blocks)))
         cdesc = {}
+        clab = {}
         extra_nodes = {}
         shared = set()     # a node is shared by at most two blocks (three-way sharing is C10 territory)
         for a, b, d in gprev.edges(data=True):
@@ -671,6 +703,7 @@ def layered_case(rng, nmax=9, n_intermediate=None, coarse_last=False, squash=Fal
                     da, db = '>' + lab, '<' + lab
                 cdesc.setdefault(a, []).append((da, d['order']))
                 cdesc.setdefault(b, []).append((db, d['order']))
+                clab[frozenset((a, b))] = (lab, a, da)
         if any(d['order'] > 4 for _, _, d in gj.edges(data=True)):
             return None
         nm = {bi: 'G%dx%d' % (j, bi) for bi in range(len(blocks))}
@@ -681,22 +714,30 @@ def layered_case(rng, nmax=9, n_intermediate=None, coarse_last=False, squash=Fal
                 if rng.random() < 0.5:
                     nm[bi] = names[-1][rng.choice([x for x in blk])]
         defs = []
+        block_orders = []
         for bi, blk in enumerate(blocks):
             sub_edges = {(a, b): d['order'] for a, b, d in gprev.edges(data=True) if bowner[a] == bi and bowner[b] == bi}
             blk = list(blk)
             for extra_id, a, b, o in extra_nodes.get(bi, []):
                 blk.append(extra_id)
                 sub_edges[(extra_id, b)] = o
-            t, _ = render_coarse_fragment(rng, names[-1], blk, sub_edges, cdesc)
+            t, ol = render_coarse_fragment(rng, names[-1], blk, sub_edges, cdesc)
             if t is None:
                 return None
             defs.append('#%s=%s' % (nm[bi], t))
+            block_orders.append(list(ol))
         level_defs.append(defs)
+        hier.append(_hier_cut([[a, {'atomname': names[-1][a]}] for a in gprev.nodes],
+                              [(a, b, d['order']) for a, b, d in gprev.edges(data=True)], clab,
+                              [[nm[bi], block_orders[bi]] for bi in range(len(blocks))], cdesc))
         graphs.append(gj)
         names.append(nm)
     top = graphs[-1]
-    base, _ = render_base(rng, [names[-1][i] for i in range(len(top))],
-                          {(a, b): d['order'] for a, b, d in top.edges(data=True)})
+    base, top_numbering = render_base(rng, [names[-1][i] for i in range(len(top))],
+                                      {(a, b): d['order'] for a, b, d in top.edges(data=True)})
+    # the top cut lists its parts in the order of the base-graph nodes; no shared nodes, one name space
+    hier[-1] = dict(hier[-1], parts=[hier[-1]['parts'][p] for p in top_numbering])
+    hier_out = None if (used_squash or reuse_names) else {'cuts': list(reversed(hier if not coarse_last else hier[1:]))}
     flat_base, _ = render_base(rng, [part_names[i] for i in range(len(parts))],
                                {(a, b): d['order'] for a, b, d in g0.edges(data=True)})
 
@@ -711,11 +752,11 @@ def layered_case(rng, nmax=9, n_intermediate=None, coarse_last=False, squash=Fal
         expect = {'nodes': [[i, part_names[i]] for i in range(len(parts))],
                   'edges': [[a, b, d['order']] for a, b, d in g0.edges(data=True)]}
         return {'layered': layered, 'flat': flat, 'coarse_last': True, 'levels': n_int, 'expect_cg': expect,
-                'nparts': len(parts), 'squash': used_squash, 'reuse_names': reuse_names}
+                'nparts': len(parts), 'squash': used_squash, 'reuse_names': reuse_names, 'hier': hier_out}
     layered = base + '.' + '.'.join(layers + [block(last_defs)])
     flat = flat_base + '.' + block(last_defs)
     return {'layered': layered, 'flat': flat, 'coarse_last': False, 'levels': n_int + 1, 'mol': mol_dump(m),
-            'nparts': len(parts), 'squash': used_squash, 'reuse_names': reuse_names}
+            'nparts': len(parts), 'squash': used_squash, 'reuse_names': reuse_names, 'hier': hier_out}
 
 
 def block_case(rng):
